@@ -1,8 +1,230 @@
 """C07 — a truncated block or message is never accepted."""
+import os
+import resource
 from lib import common as C
 from lib import colfam
 
 BUDGET = {"quick": 9000, "thorough": 150000}
+# block / stream level (extension): case lines per family
+BLK = {"quick": 1000, "thorough": 12000}
+CMP = {"quick": 90, "thorough": 900}
+BIG = {"quick": 100, "thorough": 100}     # kinds of fixed-size last columns with a body beyond 1 MiB (all of them)
+DO = {"quick": 800, "thorough": 8000}
+
+
+# ---- the model prints ? for the contents of the target whose DecodeColumn failed half way (as checks/c18.py) ----
+def _parse(s):
+    out, stack, tok = [], [], []
+    cur = out
+
+    def flush():
+        if tok:
+            cur.append("".join(tok))
+            del tok[:]
+
+    for ch in s:
+        if ch == "(":
+            flush()
+            new = []
+            cur.append(new)
+            stack.append(cur)
+            cur = new
+        elif ch == ")":
+            flush()
+            if not stack:
+                return None
+            cur = stack.pop()
+        elif ch == " ":
+            flush()
+        else:
+            tok.append(ch)
+    flush()
+    return out if not stack else None
+
+
+def _mask(model, impl):
+    if model == "?":
+        return "?"
+    if isinstance(model, list) and isinstance(impl, list) and len(model) == len(impl):
+        return [_mask(m, g) for m, g in zip(model, impl)]
+    return impl
+
+
+def _unparse(x):
+    if isinstance(x, list):
+        return "(" + " ".join(_unparse(y) for y in x) + ")"
+    return x
+
+
+def masked(model, impl):
+    if "?" not in model:
+        return impl
+    pm, pg = _parse(model), _parse(impl)
+    if pm is None or pg is None:
+        return impl
+    return " ".join(_unparse(x) for x in _mask(pm, pg))
+
+
+def _comparable(res, rows, model, key, what):
+    """Compatibility of a block with its targets is a premise of the block-level theorems (C18/C19's subject).  The
+    harness emits the WHOLE block / stream as a case before its cuts: the cuts are compared with the model only
+    where the model accepts the whole like the implementation does; elsewhere only the direct oracle applies.
+    Returns rows with the observation of incomparable cuts replaced by `-` (skipped by compare_rows)."""
+    differs = set()
+    for (c, g, o), m in zip(rows, model):
+        if g.startswith("ok ") and masked(m, g) != m:
+            differs.add(key(c))
+    if not differs:
+        return rows
+    out, n = [], 0
+    for c, g, o in rows:
+        if key(c) in differs and g != "-":
+            out.append((c, "-", o))
+            n += 1
+        else:
+            out.append((c, g, o))
+    res.distribution["%s.binding-differs.lines-not-compared" % what] = res.distribution.get("%s.binding-differs.lines-not-compared" % what, 0) + n
+    res.notes.append("%s: on %d whole blocks/streams the model binds differently from the implementation (C18/C19's subject, a premise here): "
+                     "%d cut lines judged by the direct oracle only" % (what, len(differs), n))
+    return out
+
+
+def _blk_key(c):
+    return c.rsplit(" ", 1)[0]
+
+
+def _do_key(c):
+    # recv <rev> <comp> <build> (handlers) <target> (probes) (infer table) x<stream> ...: everything in front of the stream
+    parts = c.split(" ")
+    depth, upto = 0, 0
+    for j, ptk in enumerate(parts):
+        depth += ptk.count("(") - ptk.count(")")
+        if depth == 0 and ptk.startswith("x") and j >= 7:
+            upto = j
+            break
+    return " ".join(parts[:upto]) if upto else c
+
+
+def _rows_of_aborted(out):
+    rows = []
+    if os.path.exists(out):
+        with open(out, encoding="latin-1") as f:
+            for line in f:
+                parts = line.rstrip("\n").split("\t")
+                if line.endswith("\n") and len(parts) == 3:
+                    rows.append(parts)
+    return rows
+
+
+def _direct(res, fam, n, seed, builds):
+    """a family judged by its direct oracle only; a harness taken down (or hung) by the implementation is a finding"""
+    wd = C.workdir(res.pid)
+    for build in builds:
+        tags = ("purego",) if build == "purego" else ()
+        binp = C.build_harness(tags=tags)
+        out = os.path.join(wd, "%s_%s_%d.tsv" % (fam, build, seed))
+        rc, log, stats, dt = C.run_harness(binp, fam, seed, n, res.tier, out, timeout=1500, mem=8 << 30)
+        rows = C.read_transcript(out, partial_ok=True) if rc != 0 else C.read_transcript(out)
+        for c, g, o in rows:
+            if o.startswith("FAIL"):
+                res.oracle_fail("%s [%s build]" % (c, build), o[5:])
+        res.account(rows)
+        _stats(res, fam, build, stats)
+        if os.path.exists(out):
+            os.remove(out)
+        if rc != 0:
+            if rc == 124 or "panic" in log or "fatal error" in log or "out of memory" in log:
+                res.oracle_fail("harness run %s (%s build) seed=%d after %d cases" % (fam, build, seed, len(rows)),
+                                "the implementation took the harness down (or did not return) while decoding a cut block: rc=%s %s"
+                                % (rc, log[-500:].replace("\n", " | ")))
+                return
+            raise C.Infra("harness %s (%s) failed:\n%s" % (fam, build, log[-2000:]))
+
+
+def _stats(res, fam, build, stats):
+    for k, v in stats.items():
+        key = "%s.%s.%s" % (fam, build, k)
+        res.distribution[key] = res.distribution.get(key, 0) + v
+
+
+def block_level(res, scale, seed):
+    """whole blocks cut everywhere (plain: model Res; compressed, any framing: direct), the real client on cut streams (model Recv)"""
+    wd = C.workdir(res.pid)
+    try:
+        hard = resource.getrlimit(resource.RLIMIT_STACK)[1]
+        resource.setrlimit(resource.RLIMIT_STACK, (hard, hard))
+    except (ValueError, OSError):
+        pass
+    # 1. plain blocks: every cut decoded by the real DecodeBlock (direct oracle); sampled cuts against the model
+    for build, tags in (("default", ()), ("purego", ("purego",))):
+        binp = C.build_harness(tags=tags)
+        out = os.path.join(wd, "c07blk_%s_%d.tsv" % (build, seed))
+        n = BLK[res.tier] * scale
+        if build == "purego":
+            n = n // 3
+        rc, log, stats, dt = C.run_harness(binp, "c07blk", seed, n, res.tier, out, timeout=1500, mem=8 << 30)
+        if rc != 0:
+            rows = C.read_transcript(out, partial_ok=True) if os.path.exists(out) else []
+            for c, g, o in rows:
+                if o.startswith("FAIL"):
+                    res.oracle_fail(c, o[5:])
+            if rc == 124 or "panic" in log or "fatal error" in log or "out of memory" in log:
+                res.oracle_fail("harness run c07blk (%s build) seed=%d after %d cases" % (build, seed, len(rows)),
+                                "the implementation took the harness down (or did not return) while decoding a cut block: rc=%s %s"
+                                % (rc, log[-500:].replace("\n", " | ")))
+                res.account(rows)
+                continue
+            raise C.Infra("harness c07blk (%s) failed:\n%s" % (build, log[-2000:]))
+        rows = C.read_transcript(out)
+        model = C.run_eval("Res", [r[0] for r in rows])
+        rows = _comparable(res, rows, model, _blk_key, "c07blk(%s)" % build)
+        rows_m = [(c, masked(m, g) if g != "-" else g, o) for (c, g, o), m in zip(rows, model)]
+        C.compare_rows(res, rows_m, model, "correspondence(block cuts,%s)" % build)
+        res.account(rows)
+        _stats(res, "c07blk", build, stats)
+        small = [(r, m) for r, m in zip(rows, model) if len(r[0]) < 700 and r[1] != "-"]
+        if len(res.samples) < 10:
+            res.samples += [{"case": r[0][:700], "implementation": r[1][:300], "model": m[:300], "oracle": r[2][:200]}
+                            for r, m in small[:2]]
+        short = [(r, m) for r, m in zip(rows, model) if len(r[0]) < 1200 and r[1] != "-"]
+        ok, k, slog = C.coq_sample("GlueRes", C.sample_pairs([r for r, _ in short], [m for _, m in short], seed, k=8), wd,
+                                   "c07blk_" + build)
+        res.extra["in_coq_sample"] = res.extra.get("in_coq_sample", 0) + k
+        if not ok:
+            res.tie_broken("extraction", "vm_compute inside Coq disagrees with the extracted evaluator:\n" + slog)
+        os.remove(out)
+    # 2. the same blocks through compress.Writer / compress.Reader, one frame and re-framed into 2-3 frames: every cut (direct)
+    _direct(res, "c07cmp", CMP[res.tier] * scale, seed, ("default", "purego"))
+    # 2b. a fixed-size LAST column whose body exceeds 1 MiB, cut before / inside / at the end of that body (direct)
+    _direct(res, "c07big", BIG[res.tier], seed, ("default", "purego"))
+    # 3. the real client: the server stream cut at every position of its last block packet
+    binp = C.build_harness()
+    out = os.path.join(wd, "c07do_%d.tsv" % seed)
+    rc, log, stats, dt = C.run_harness(binp, "c07do", seed, DO[res.tier] * scale, res.tier, out, timeout=1500, mem=8 << 30)
+    if rc != 0:
+        rows = _rows_of_aborted(out)
+        for c, g, o in rows:
+            if o.startswith("FAIL"):
+                res.oracle_fail(c, o[5:])
+        if rc == 124 or "panic" in log or "fatal error" in log or "out of memory" in log:
+            res.oracle_fail("harness run c07do seed=%d after %d cases" % (seed, len(rows)),
+                            "the implementation aborted the process while receiving a cut response: " + log[-600:].replace("\n", " | "))
+            res.account(rows)
+            return
+        raise C.Infra("harness c07do failed:\n" + log[-2000:])
+    rows = C.read_transcript(out)
+    model = C.run_eval("Recv", [r[0] for r in rows])
+    rows = _comparable(res, rows, model, _do_key, "c07do")
+    C.compare_rows(res, rows, model, "correspondence(receive loop on a cut stream)")
+    res.account(rows)
+    _stats(res, "c07do", "default", stats)
+    small = [(r, m) for r, m in zip(rows, model) if len(r[0]) < 900]
+    res.samples += [{"case": r[0][:900], "implementation": r[1][:400], "model": m[:400], "oracle": r[2][:200]} for r, m in small[:2]]
+    ok, n, slog = C.coq_sample("GlueRecv", C.sample_pairs(rows, model, seed, k=8), wd, "c07do")
+    res.extra["in_coq_sample"] = res.extra.get("in_coq_sample", 0) + n
+    if not ok:
+        res.tie_broken("extraction", "vm_compute inside Coq disagrees with the extracted evaluator:\n" + slog)
+    os.remove(out)
 
 
 def explore(res, scale=1, seed=None):
@@ -13,10 +235,31 @@ def explore(res, scale=1, seed=None):
     # blocks ending in LowCardinality columns with UInt16 / UInt32 keys (more than 255 / 65535 distinct values), both builds
     colfam.run_direct(res, "c07wide", 1, seed, builds=("default", "purego"))
     colfam.run_family(res, "c07msg", BUDGET[res.tier] * scale // 3, seed, builds=("default",), glue="Msg", gluemod="GlueMsg")
+    block_level(res, scale, seed)
     res.extra["rule"] = ("every cut position (stride for encodings > 600 bytes in the quick tier) of column encodings of the catalogue "
-                         "and of protocol messages at revisions around every feature threshold; compressed frames' cuts run under C05; "
+                         "and of protocol messages at revisions around every feature threshold; "
+                         "block level (c07blk): whole blocks of 0-4 catalogue columns (nested and stateful kinds favoured), 0..300 rows, zero-row and "
+                         "zero-column blocks, revisions on both sides of every feature, encoded by the real Block.EncodeBlock; EVERY cut (stride "
+                         "beyond 6000 bytes, all cuts around field boundaries) decoded by the real Block.DecodeBlock into fresh typed targets, "
+                         "Results.Auto and reused targets holding an earlier complete block (direct oracle: error, no panic); the cuts around "
+                         "every field boundary and a sample of the others are compared with the model (which column fails, what the targets hold); "
+                         "big (c07big): for every fixed-size kind (integers, floats, decimals, dates, times, UUID, IP, Bool, enums, Point, FixedString(N) "
+                         "inferred and user-sized) a block [UInt8; that kind] whose last body is 1.1-1.3 MiB, cut right before, inside (also at the 1 MiB "
+                         "mark) and at the end of that body, typed targets and Results.Auto (direct oracle: error; if accepted the targets' Rows()); "
+                         "zero-row header blocks of 1-3 columns at revisions 54453 / 54454 / current are always part of c07blk; "
+                         "compressed (c07cmp): the same blocks as one frame of compress.Writer (None/LZ4/LZ4HC/ZSTD) and re-framed into 2-3 frames "
+                         "(a payload-less frame in between now and then), every cut of the frame stream read through compress.Reader under "
+                         "DecodeBlock, frame boundaries included (direct oracle); client (c07do): the real Connect + Do over the scripted "
+                         "connection of C03, a few complete packets then a last Data/Totals/Log/ProfileEvents packet cut at every position "
+                         "(direct oracle: Do returns a read error and the callbacks are exactly those of the complete packets; sampled cuts "
+                         "compared with the model's receive loop); "
                          "non-trivial = distinct (case kind, error class)")
-    res.assumptions = ["compressed streams: cuts of frames are exercised by the C05 harness (family prefix) and proved in props/C07.v via CompressProofs"]
+    res.assumptions = ["compressed streams: cuts of single frames are exercised by the C05 harness (family prefix) and proved in props/C07.v via CompressProofs; "
+                       "whole compressed blocks in any framing: family c07cmp (direct) and c07do (model), theorems compressed_*_prefix_rejected",
+                       "block-level theorems: the block fits the targets (compatible types: C18/C19's subject), ColumnType.Conflicts irreflexive, "
+                       "codec_rt for the compressed half, blocks under the model's allocation budget (~25 GB) for the exact error class",
+                       "a target whose DecodeColumn failed half way holds unspecified contents (printed ? by the model and not compared)",
+                       "CityHash128, lz4, zstd and ColAuto.Infer are oracle tables in the `recv` case lines (as in C03)"]
 
 
 def replay(res, path):
